@@ -860,6 +860,9 @@ theorem sys_startTop {s : St} (hst : s.stack = []) (h : SysInv s) (hdead : DeadO
   case frameEnd =>
     exact typical _ [.gc, .poll] (SysOld.of_eq rfl) rfl (fun c hc => by simpa [allCmds, St.push, St.emit, frameCmds] using hc)
       (by simp [St.push, St.emit]) (nocmd _ (by simp [frameCmds])) h.wq
+  case clearTrackers =>
+    exact typical _ [] (SysOld.of_eq rfl) rfl (fun c hc => by simpa [allCmds, St.emit] using hc) (by simp [St.emit])
+      (nocmd _ (by simp)) h.wq
   case wSysEvent sys ty pid =>
     -- `World::send_system_event`: the data is stored at once and the command applied directly: its entry is prepared
     simp only [applyCmd]
